@@ -15,6 +15,27 @@ ASSUMPTIONS = [
 ]
 
 PROPS = {
+    "C12": {
+        "rule": "reference-issued tokens (random claims/markings, sha-256/384/512) with exactly one seeded defect out of 23 kinds (non-array / arity 0,1,4 disclosure; "
+                "3-element disclosure in a placeholder; 2-element disclosure in _sd; non-string / _sd / ... name; name collision; the same digest in one _sd twice, in two _sd lists, "
+                "in two placeholders, in _sd and placeholder, with and without its disclosure presented; _sd a string/object/number; placeholder with an extra member; unknown / wrongly "
+                "cased / missing / non-string _sd_alg), planted in the claims before issuing so that it lands at any nesting level including inside disclosure values; all own "
+                "disclosures presented in random order; every fourth case also runs the twin without the defect, which must be accepted. non-trivial = defect case; distinct = distinct (kind,input)",
+        "explanation": "oracle: Holder::verify, Verifier::verify and Holder::presentation return Err on the defect token and Ok(original claims) on the twin",
+        "trusted_base": [],
+        "assumptions": ["issuer JWT signature checking is an oracle of the model (table of harness-signed HS256 tokens)"],
+    },
+    "C03": {
+        "rule": "random claims trees (depth<=3, width<=3) with random markings issued by the harness's reference issuer (sha-256/384/512, decoys, "
+                "odd formatting), then adversarial disclosure lists: subsets, permutations, duplicates, disclosures of a second token, foreign/"
+                "reserved/non-string names, non-base64, non-JSON, wrong arity, bit substitutions, truncations, empty segments; every third case "
+                "is a duplicate-free ancestor-closed subset in random order that must be accepted. non-trivial = the list differs from the "
+                "issuer's own list; distinct = distinct (kind,input)",
+        "explanation": "theorems over all annotated trees and all lists; correspondence: Holder::verify, Verifier::verify, Holder::presentation+build vs extracted model; "
+                       "oracle: Err, or claims = original minus the marks whose disclosure is not presented (Spec.prune)",
+        "trusted_base": ["premises of the theorems: hash_inj (the digest function is injective: idealised collision resistance), dec_enc (decoding an encoded disclosure returns its parts)"],
+        "assumptions": ["issuer JWT signature checking is an oracle of the model (table of harness-signed HS256 tokens)"],
+    },
     "C10": {
         "rule": "exhaustive enumeration of all strings over {a . ~} up to length 8 (quick) / 11 (thorough) through sd_jwt_parts; "
                 "a case is non-trivial when the string contains at least one '~' (the splitter takes its indexing path); distinct = distinct (kind,input)",
